@@ -180,6 +180,35 @@ fn build_cases() -> Vec<Case> {
                     i.input = 9;
                 }
             }), Expect::NoPanic, vec![]);
+            // every Input instruction x boundary and far-out values of both fields
+            let input_positions: Vec<usize> = t.0.to_polytune().insts.iter().enumerate().filter(|(_, i)| matches!(i.op, Op::Input(_))).map(|(k, _)| k).collect();
+            for &k in &input_positions {
+                for delta in [0u32, 1, 7] {
+                    push(format!("inst{k}.input=len+{delta}"), "input_fields", who, &circ_mut(&move |c| {
+                        if let Op::Input(i) = &mut c.insts[k].op {
+                            i.input = c.input_regs.get(i.party as usize).copied().unwrap_or(0) as u32 + delta;
+                        }
+                    }), Expect::NoPanic, vec![]);
+                }
+                push(format!("inst{k}.input=max"), "input_fields", who, &circ_mut(&move |c| {
+                    if let Op::Input(i) = &mut c.insts[k].op {
+                        i.input = u32::MAX;
+                    }
+                }), Expect::NoPanic, vec![]);
+                for party in [n as u32, n as u32 + 1, u32::MAX] {
+                    push(format!("inst{k}.party={party}"), "input_fields", who, &circ_mut(&move |c| {
+                        if let Op::Input(i) = &mut c.insts[k].op {
+                            i.party = party;
+                        }
+                    }), Expect::NoPanic, vec![]);
+                }
+                // another party's (valid) index: the instruction order no longer matches the owners
+                push(format!("inst{k}.party=next"), "input_fields", who, &circ_mut(&move |c| {
+                    if let Op::Input(i) = &mut c.insts[k].op {
+                        i.party = (i.party + 1) % n as u32;
+                    }
+                }), Expect::NoPanic, vec![]);
+            }
             push("input_regs_longer".into(), "input_regs_len", who, &circ_mut(&|c| c.input_regs.push(0)), Expect::NoPanic, vec![]);
             push("input_regs_shorter".into(), "input_regs_len", who, &circ_mut(&|c| { c.input_regs.pop(); }), Expect::NoPanic, vec![]);
         }
